@@ -177,7 +177,9 @@ func (p *Parser) parseUnaryExpr() (Expression, error) {
 					pos := p.tok.Pos
 					p.next()
 					p.next()
-					if nt.Tp == NUMBER {
+					// The smallest integer has no positive counterpart, its
+					// digits alone are lexed as a float
+					if nt.Tp == NUMBER || isNumber("-"+nt.Data) {
 						return newNumberExpr(pos, "-"+nt.Data), nil
 					}
 					return newFloatExpr(pos, "-"+nt.Data), nil
